@@ -399,9 +399,7 @@ def _other_layout(a):
     big = np.empty((2 * a.shape[0],) + a.shape[1:], dtype=a.dtype)
     big[::2] = a[..., ::-1]
     big[1::2] = a[..., ::-1]
-    v = big[::2][..., ::-1]
-    assert not v.flags["C_CONTIGUOUS"] or v.size <= 1
-    return v
+    return big[::2][..., ::-1]      # (contiguous all the same when every axis but one has length 1)
 
 
 def relayout(x, depth=0):
